@@ -29,7 +29,8 @@ MANIFEST = dict(
     text='Decides that a key is accepted iff 0 <= key < 2^width for every key form (so no key can alias another), that parse(serialize(map)) returns '
          'exactly the stored pairs in ascending order for every key set of widths 1..3(4), all insertion orders of small sets and structured wide sets '
          'through every reader entry point and value serialiser, and that the empty map is "no cell" on both sides.'
-         ' Custom key deserialisers receive the full-width key (leading zeros included) through every reader.',
+         ' Custom key deserialisers receive the full-width key (leading zeros included) through every reader.'
+         ' Values of zero width (unit values) come back as what the value deserialiser returns.',
     note='trusted: interpreter + bitarray model. Not decided: all key sets of all widths (finite families; the canonical shape for them is C10.D3).',
     design_ref='DESIGN.md section 4 C09')
 
